@@ -32,7 +32,7 @@ theorem isFalseCore_sound (e : Expr) (h : isFalseCore e = true) : Unsat e := by
   rw [Claripy.Props.C05.C05_concrete e hsym env env0]
   exact beq_val_false h.2
 
-/-- structural equality test is sound -/
+/-! structural equality test is sound -/
 mutual
 theorem beq_eq : ∀ (a b : Expr), Expr.beq a b = true → a = b
   | .bvv v w, .bvv v' w', h => by simp [Expr.beq] at h; simp [h]
@@ -74,7 +74,7 @@ theorem lookup_mem (l : List (Expr × Bool)) (e : Expr) (v : Bool) (h : lookup l
 
 theorem isTrue_step (c : Caches) (e : Expr) (hc : CacheInv c) :
     ((isTrue c e).1 = true → Valid e) ∧ CacheInv (isTrue c e).2 := by
-  unfold isTrue
+  unfold Claripy.AST.isTrue
   cases hl : lookup c.t e with
   | some v =>
     refine ⟨fun hv => hc.1 (e, v) (lookup_mem _ _ _ hl) hv, hc⟩
@@ -96,7 +96,7 @@ theorem isTrue_step (c : Caches) (e : Expr) (hc : CacheInv c) :
 
 theorem isFalse_step (c : Caches) (e : Expr) (hc : CacheInv c) :
     ((isFalse c e).1 = true → Unsat e) ∧ CacheInv (isFalse c e).2 := by
-  unfold isFalse
+  unfold Claripy.AST.isFalse
   cases hl : lookup c.f e with
   | some v =>
     refine ⟨fun hv => hc.2 (e, v) (lookup_mem _ _ _ hl) hv, hc⟩
